@@ -45,7 +45,7 @@ pub fn factorize_verbose(x: &BigInt, verbose: bool) -> (Vec<(BigInt, u64)>, EcmS
             &now,
             ECMConfig {
                 b1: b,
-                b2: 100 * b,
+                b2: b.saturating_mul(100),
                 verbose,
             },
         );
